@@ -160,7 +160,7 @@ func init() {
 			"every non-empty diff is applied twice, to a fresh parse of a and to the very operand it was computed from (whose arrays its hunks may still refer to); non-trivial = the diff has at least one hunk; distinct = distinct (a, b, options) texts",
 		Floors: map[string]int{
 			"diff_nonempty": 5000, "hunks>=2": 1000, "index_shift(>=2 hunks in one array)": 300, "hunk_nested_arrays": 300,
-			"hunk_set_multi": 100, "hunk_keyed_member": 100, "hunk_merge": 100, "hunk_multiset": 100, "void_involved": 20, "deep_chain_pairs": 5000, "yaml_read_pairs": 3000, "applied_to_the_operand_itself": 5000, "bulky_element_pairs": 1000, "copies_made_by_a_multiset_patch": 1000,
+			"hunk_set_multi": 100, "hunk_keyed_member": 100, "hunk_merge": 100, "hunk_multiset": 100, "void_involved": 20, "deep_chain_pairs": 5000, "yaml_read_pairs": 3000, "applied_to_the_operand_itself": 5000, "bulky_element_pairs": 1000, "copies_made_by_a_multiset_patch": 1000, "twin_member_pairs": 5000,
 		},
 		Assumptions: []string{
 			"jd values are built with jd's own ReadJsonString / ReadYamlString from generated text",
@@ -243,6 +243,19 @@ func init() {
 					}
 				}
 				c.Feature("bulky_element_pairs")
+				w := i % 3
+				c01Judge(c, ref.ToJSON(gen.Wrap(a, w)), ref.ToJSON(gen.Wrap(b, w)), o)
+			},
+		})
+	}
+	for _, o := range []OptSet{OptSetO, OptMset, OptNone, OptMsMerge} {
+		o := o
+		p.Strata = append(p.Strata, mon.Stratum{
+			Name: "twins/" + o.Name,
+			N:    qt(2500, 150000),
+			Run: func(c *mon.Ctx, i int) {
+				a, b := twinsPair(c.R)
+				c.Feature("twin_member_pairs")
 				w := i % 3
 				c01Judge(c, ref.ToJSON(gen.Wrap(a, w)), ref.ToJSON(gen.Wrap(b, w)), o)
 			},
